@@ -302,6 +302,10 @@ func (b *bEnv) call(n *ast.CallExpr) bVal {
 			return bScalar{b.state().norm(a.cap)}
 		}
 		panic(verr("spec(B): cap of %s is not tracked", exprString(arg(0))))
+	case "sameval":
+		// deep equality of two values of the same type: scalars equal, pointers to the same location,
+		// slices over the same array with the same length, structs field by field
+		return bScalar{b.e.sameVal(b.state(), b.Eval(arg(0)), b.Eval(arg(1)), exprString(arg(0)))}
 	case "samearray":
 		// two slices over the same backing array object
 		x, ok1 := b.Eval(arg(0)).(bSlice)
